@@ -202,11 +202,7 @@ func deltaOf(ph *ssa.Phi, d *an.Expr) (*big.Rat, bool) {
 	if !ok || nf.Mode != an.ModeNone {
 		return nil, false
 	}
-	nm := ph.Comment
-	if nm == "" {
-		nm = ph.Name()
-	}
-	diff := nf.Lin.Sub(an.LinSym("loop:" + nm))
+	diff := nf.Lin.Sub(an.LinSym(an.LoopSym(ph)))
 	if !diff.IsConst() {
 		return nil, false
 	}
